@@ -3,7 +3,7 @@
 Behavioural monitor: the same (A,b,...) / (A,x,...) goes through use_cpp=True and use_cpp=False in one worker with the same
 per-execution seed; both must meet the C12 / C11 bounds and agree with each other.  Workers are subprocesses (the freshly
 built extension has to be importable before torchtt is imported) with a pre-call journal, so a SIGSEGV/SIGABRT inside the
-extension is a violation whose witness is the journaled case.  Sanitizer monitor (thorough): the workload is repeated on an
+extension is a violation whose witness is the journaled case.  Sanitizer monitor (both tiers, a strided subset of the workload): it is repeated on an
 ASan+UBSan build of cpp/ and report blocks with a frame inside torchttcpp.so are violations.
 """
 import os
@@ -30,7 +30,7 @@ RULE = ('cases = amen_solve on the C12 system classes (certified cond_2<=1e3; SP
         'without initial guess) and fast_matvec on the C11 operand classes (order 1..6, rectangular, with and without initial guess), each executed with use_cpp=True on the extension '
         'built from the CURRENT cpp/ sources and with use_cpp=False, same seed. Oracle: each backend meets its accuracy contract (residual <= 10 eps ||b||; product error <= 10 eps ||ref||) '
         'and ||x_cpp - x_py|| <= 20 eps kappa ||x_py||; calls into torchttcpp are counted by wrapping the module functions (a configuration in which the C++ path did not run is not '
-        'counted); a worker killed by a signal is a violation attributed to the journaled case. Thorough: the first part of the workload is repeated under an ASan+UBSan build and '
+        'counted); a worker killed by a signal is a violation attributed to the journaled case. A strided subset of the workload (every 5th case in quick, every 11th in thorough) is repeated under an ASan+UBSan build and '
         'sanitizer report blocks with a frame in torchttcpp.so are violations. distinct = (routine, structure, configuration, eps decade, seed index); non-trivial = C++ path observed.')
 ASSUMPTIONS = ['built with -std=c++20 instead of setup.py\'s -std=c++17 (PyTorch 2.14 headers require it); otherwise the same sources and libraries',
                'sanitizers see only torchttcpp.so: libtorch, OpenBLAS and the BLAS integer-width convention in cpp/BLAS.h are outside their view',
@@ -45,20 +45,22 @@ _state = {}
 
 def prepare(tier):
     from .. import cppbuild
+    import concurrent.futures
     info = {}
-    b = cppbuild.build('plain')
+    # both builds in parallel (threads only wait for g++)
+    with concurrent.futures.ThreadPoolExecutor(2) as ex:
+        fb, fa = ex.submit(cppbuild.build, 'plain'), ex.submit(cppbuild.build, 'asan')
+        b, a = fb.result(), fa.result()
     info['plain'] = {k: v for k, v in b.items() if k != 'path'}
     if 'error' in b:
         return {'inconclusive': 'cannot build cpp/cpp_ext.cpp: ' + b['error'][:300]}
     os.environ['TTMON_CPP_DIR'] = b['path']
     _state['plain'] = b['path']
-    if tier == 'thorough':
-        a = cppbuild.build('asan')
-        info['asan'] = {k: v for k, v in a.items() if k != 'path'}
-        if 'error' in a:
-            info['sanitizer'] = {'status': 'not run: build failed', 'error': a['error'][:300]}
-        else:
-            info['sanitizer'] = run_sanitizer_pass(a['path'])
+    info['asan'] = {k: v for k, v in a.items() if k != 'path'}
+    if 'error' in a:
+        info['sanitizer'] = {'status': 'not run: build failed', 'error': a['error'][:300]}
+    else:
+        info['sanitizer'] = run_sanitizer_pass(a['path'], tier, stride=5 if tier == 'quick' else 11)
     return info
 
 
@@ -267,13 +269,13 @@ def run_matvec(case, ctx, cnt):
 
 # ---- sanitizer pass ------------------------------------------------------------------------------------------------
 
-def run_sanitizer_pass(asan_dir, nshards=8, limit=160):
+def run_sanitizer_pass(asan_dir, tier='thorough', nshards=12, stride=11):
     from .. import cppbuild
     work = os.path.join(HERE, '.work', 'c17-san-%d' % os.getpid())
     shutil.rmtree(work, ignore_errors=True)
     os.makedirs(work)
     env = dict(os.environ)
-    env.update({'TTMON_CPP_DIR': asan_dir, 'LD_PRELOAD': cppbuild.sanitizer_preload(), 'TTMON_CASE_LIMIT': str(limit), 'TTMON_NO_REACH': '1',
+    env.update({'TTMON_CPP_DIR': asan_dir, 'LD_PRELOAD': cppbuild.sanitizer_preload(), 'TTMON_CASE_STRIDE': str(stride), 'TTMON_NO_REACH': '1',
                 'ASAN_OPTIONS': 'detect_leaks=0:halt_on_error=0:abort_on_error=0:log_path=%s' % os.path.join(work, 'asan'),
                 'UBSAN_OPTIONS': 'print_stacktrace=1:halt_on_error=0:log_path=%s' % os.path.join(work, 'ubsan')})
     seed = int(os.environ.get('VERIF_SEED', '0') or 0)
@@ -281,7 +283,7 @@ def run_sanitizer_pass(asan_dir, nshards=8, limit=160):
     for s in range(nshards):
         out = os.path.join(work, 'w%d.jsonl' % s)
         err = open(os.path.join(work, 'w%d.err' % s), 'w')
-        procs.append((subprocess.Popen([sys.executable, '-m', 'ttmon.worker', 'C17', 'thorough', str(seed), str(s), str(nshards), out], cwd=HERE, env=env, stdout=err, stderr=subprocess.STDOUT), err))
+        procs.append((subprocess.Popen([sys.executable, '-m', 'ttmon.worker', 'C17', tier, str(seed), str(s), str(nshards), out], cwd=HERE, env=env, stdout=err, stderr=subprocess.STDOUT), err))
     rcs = []
     for p, err in procs:
         try:
@@ -330,5 +332,10 @@ def extra_violations(build_info):
     return out
 
 
-def extra_evidence(agg, counts, metrics):
-    return {}
+def extra_reasons(build_info):
+    san = (build_info or {}).get('sanitizer') or {}
+    if san.get('status') != 'ran':
+        return ['sanitizer monitor did not run: %s' % san.get('status')]
+    if san.get('cases_completed_under_sanitizer', 0) < 10 or san.get('cpp_calls_under_sanitizer', 0) < 5:
+        return ['sanitizer monitor observed too little: %d cases, %d calls into torchttcpp' % (san.get('cases_completed_under_sanitizer', 0), san.get('cpp_calls_under_sanitizer', 0))]
+    return []
